@@ -32,6 +32,37 @@ Fixpoint unescape (l : list Z) : list Z :=
       else c :: unescape t
   end.
 
+(* the same for decodeURL(b, plus): with plus = false (DataURI) a '+' is kept *)
+Fixpoint unescape_gen (plus : bool) (l : list Z) : list Z :=
+  match l with
+  | [] => []
+  | c :: t =>
+      if c =? 37 then
+        match t with
+        | h1 :: h2 :: t2 =>
+            if is_hex h1 && is_hex h2 then (hex_val h1 * 16 + hex_val h2) :: unescape_gen plus t2
+            else c :: unescape_gen plus t
+        | _ => c :: unescape_gen plus t
+        end
+      else if plus && (c =? 43) then 32 :: unescape_gen plus t
+      else c :: unescape_gen plus t
+  end.
+
+(* percent-decoding only: %XY with two hex digits is one byte, EVERYTHING else is kept *)
+Definition pct_unescape (l : list Z) : list Z := unescape_gen false l.
+
+Lemma unescape_gen_true : forall l, unescape_gen true l = unescape l.
+Proof.
+  assert (H : forall n l, (length l <= n)%nat -> unescape_gen true l = unescape l).
+  { induction n as [|n IH]; intros l Hn.
+    - destruct l; [reflexivity|cbn in Hn; lia].
+    - destruct l as [|c t]; [reflexivity|]. cbn [length] in Hn. cbn [unescape_gen unescape andb].
+      rewrite (IH t) by lia.
+      destruct t as [|h1 [|h2 t2]]; try reflexivity.
+      rewrite (IH t2) by (cbn [length] in Hn; lia). reflexivity. }
+  intros l. apply (H (length l)). lia.
+Qed.
+
 Definition table256 (t : list bool) : Prop := length t = 256%nat.
 
 (* EncodeURL looks again at the two digits it has written: they must not be marked themselves *)
@@ -218,26 +249,27 @@ Example encode_example :
 Proof. vm_compute. split; reflexivity. Qed.
 
 (* --- DecodeURL -------------------------------------------------------------------------------------------- *)
-Lemma decode_loop_spec :
+Lemma decode_loop_spec plus :
   forall fuel rest pre, len rest < Z.of_nat fuel ->
-    decode_loop fuel (pre ++ rest) (len pre) = Ok (pre ++ unescape rest).
+    decode_loop plus fuel (pre ++ rest) (len pre) = Ok (pre ++ unescape_gen plus rest).
 Proof.
   induction fuel as [|f IH]; intros rest pre Hf; [pose proof (len_nonneg rest); lia|].
   cbn [decode_loop]. destruct rest as [|c t].
-  - cbn [unescape]. rewrite app_nil_r. replace (len pre <=? len pre) with true by lia. reflexivity.
+  - cbn [unescape_gen]. rewrite app_nil_r. replace (len pre <=? len pre) with true by lia. reflexivity.
   - rewrite len_app, len_cons. pose proof (len_nonneg t) as Ht. rewrite len_cons in Hf.
     replace (len pre + (1 + len t) <=? len pre) with false by lia.
-    rewrite peekz_view. cbn [hd_error unescape].
-    assert (Hnext : forall x, decode_loop f (pre ++ x :: t) (len pre + 1) = Ok (pre ++ x :: unescape t)).
+    rewrite peekz_view. cbn [hd_error unescape_gen].
+    assert (Hnext : forall x, decode_loop plus f (pre ++ x :: t) (len pre + 1) = Ok (pre ++ x :: unescape_gen plus t)).
     { intros x. replace (pre ++ x :: t) with ((pre ++ [x]) ++ t) by (rewrite <- app_assoc; reflexivity).
       rewrite <- len_snoc with (x := x). rewrite IH by lia. rewrite <- app_assoc. reflexivity. }
     destruct (Z.eqb_spec c 37) as [->|Hne37].
-    + destruct t as [|h1 [|h2 t2]].
+    + replace (plus && (37 =? 43)) with false by (rewrite andb_false_r; reflexivity).
+      destruct t as [|h1 [|h2 t2]].
       * (* "%" at the end *)
         replace (len pre + 2 <? len pre + (1 + len (@nil Z))) with false by (unfold len; cbn [length]; lia).
-        cbn [andb]. replace (37 =? 43) with false by reflexivity. apply Hnext.
+        cbn [andb]. apply Hnext.
       * replace (len pre + 2 <? len pre + (1 + len [h1])) with false by (unfold len; cbn [length]; lia).
-        cbn [andb]. replace (37 =? 43) with false by reflexivity. apply Hnext.
+        cbn [andb]. apply Hnext.
       * repeat rewrite len_cons in *. pose proof (len_nonneg t2).
         replace (len pre + 2 <? len pre + (1 + (1 + (1 + len t2)))) with true by lia. cbn [andb].
         replace (peekz (pre ++ 37 :: h1 :: h2 :: t2) (len pre + 1)) with (Some h1).
@@ -259,8 +291,9 @@ Proof.
         rewrite <- len_snoc with (x := v). rewrite IH by lia. rewrite <- app_assoc. reflexivity.
     + replace ((c =? 37) && (len pre + 2 <? len pre + (1 + len t))) with false
         by (symmetry; apply andb_false_iff; left; lia).
-      destruct (Z.eqb_spec c 43) as [->|Hne43].
-      * replace (setz (pre ++ 43 :: t) (len pre) 32) with (pre ++ 32 :: t).
+      destruct (plus && (c =? 43)) eqn:E43.
+      * apply andb_true_iff in E43. destruct E43 as [_ E43]. apply Z.eqb_eq in E43. subst c.
+        replace (setz (pre ++ 43 :: t) (len pre) 32) with (pre ++ 32 :: t).
         2:{ unfold setz. rewrite len_app, len_cons. pose proof (len_nonneg pre).
             replace ((0 <=? len pre) && (len pre <? len pre + (1 + len t))) with true by lia.
             rewrite firstz_app_len. rewrite skipz_app_more by lia. reflexivity. }
@@ -268,10 +301,17 @@ Proof.
       * apply Hnext.
 Qed.
 
-Lemma decode_spec_proof : forall b, decode_url b = Ok (unescape b).
+Lemma decode_gen_spec_proof : forall plus b, decode_url_gen plus b = Ok (unescape_gen plus b).
 Proof.
-  intros b. unfold decode_url. apply (decode_loop_spec _ b []). pose proof (len_nonneg b). lia.
+  intros plus b. unfold decode_url_gen. apply (decode_loop_spec plus _ b []). pose proof (len_nonneg b). lia.
 Qed.
+
+Lemma decode_spec_proof : forall b, decode_url b = Ok (unescape b).
+Proof. intros b. unfold decode_url. rewrite decode_gen_spec_proof. rewrite unescape_gen_true. reflexivity. Qed.
+
+(* decodeURL(b, false), the decoder DataURI uses *)
+Lemma pct_decode_spec_proof : forall b, decode_url_gen false b = Ok (pct_unescape b).
+Proof. intros b. apply decode_gen_spec_proof. Qed.
 
 Lemma unescape_len l : len (unescape l) <= len l.
 Proof.
@@ -331,15 +371,6 @@ Proof.
   exists (encode_ref Tables.url_encoding_table b). split.
   - apply encode_exact_proof; assumption.
   - rewrite decode_spec_proof. f_equal. apply unescape_encode_ref; assumption.
-Qed.
-
-(* DataURIEncodingTable leaves '+' alone, DecodeURL turns it into a space *)
-Lemma datauri_table_plus_refuted_proof :
-  exists b, Forall is_byte b /\
-    exists r, encode_url b Tables.datauri_encoding_table = Ok r /\ decode_url r <> Ok b.
-Proof.
-  exists [43]. split; [repeat constructor; unfold is_byte; lia|].
-  exists [43]. split; [vm_compute; reflexivity|]. vm_compute. discriminate.
 Qed.
 
 (* --- url.QueryUnescape as a reference: it fails on a '%' that is not followed by two hex digits ----- *)
@@ -425,3 +456,42 @@ Qed.
 
 Lemma decode_not_longer_proof : forall b r, decode_url b = Ok r -> len r <= len b.
 Proof. intros b r H. rewrite decode_spec_proof in H. injection H as <-. apply unescape_len. Qed.
+
+(* --- percent-decoding only (the DataURI payload): inverts EncodeURL for ANY table that marks '%' ------------ *)
+Lemma pct_unescape_plain c r : c <> 37 -> pct_unescape (c :: r) = c :: pct_unescape r.
+Proof. intros H. unfold pct_unescape. cbn [unescape_gen andb]. replace (c =? 37) with false by lia. reflexivity. Qed.
+
+Lemma pct_unescape_escape c r : is_byte c -> pct_unescape (37 :: hexd (c / 16) :: hexd (c mod 16) :: r) = c :: pct_unescape r.
+Proof.
+  intros Hc. destruct (byte_nibbles c Hc) as (Hh & Hl & Hsum).
+  destruct (hexd_facts _ Hh) as (Hx1 & Hv1 & _). destruct (hexd_facts _ Hl) as (Hx2 & Hv2 & _).
+  unfold pct_unescape. cbn [unescape_gen]. replace (37 =? 37) with true by reflexivity. rewrite Hx1, Hx2. cbn [andb].
+  rewrite Hv1, Hv2, Hsum. reflexivity.
+Qed.
+
+Lemma pct_unescape_encode_ref t b :
+  tbl t 37 = Some true -> Forall is_byte b -> pct_unescape (encode_ref t b) = b.
+Proof.
+  intros H37 Hb. induction Hb as [|c b Hc _ IH]; [reflexivity|].
+  cbn [encode_ref flat_map]. unfold enc1. destruct (tbl t c) as [[|]|] eqn:E.
+  - cbn [app]. rewrite pct_unescape_escape by assumption. f_equal. exact IH.
+  - cbn [app]. rewrite pct_unescape_plain by congruence. f_equal. exact IH.
+  - cbn [app]. rewrite pct_unescape_plain by congruence. f_equal. exact IH.
+Qed.
+
+(* the condition is exact: a table that leaves '%' alone does not round-trip "%41" *)
+Lemma pct_needs_percent_marked t :
+  table256 t -> tbl t 37 = Some false -> tbl t 52 = Some false -> tbl t 49 = Some false ->
+  encode_ref t [37; 52; 49] = [37; 52; 49] /\ pct_unescape [37; 52; 49] = [65].
+Proof.
+  intros _ H37 H52 H49. split; [|reflexivity].
+  cbn [encode_ref flat_map]. unfold enc1. rewrite H37, H52, H49. reflexivity.
+Qed.
+
+Lemma pct_decode_encode_proof :
+  forall t b r, table256 t -> enc_stable t -> tbl t 37 = Some true -> Forall is_byte b ->
+    encode_url b t = Ok r -> decode_url_gen false r = Ok b.
+Proof.
+  intros t b r Ht Hst H37 Hb He. rewrite encode_exact_proof in He by assumption.
+  injection He as <-. rewrite pct_decode_spec_proof. f_equal. apply pct_unescape_encode_ref; assumption.
+Qed.
